@@ -255,6 +255,9 @@ type request struct {
 	Tunnel   bool   `json:"tunnel"`
 	Filters  int    `json:"filters"`
 	Mounting string `json:"mounting"` // bare | mux | prefix
+	// Stray: an X-HTTP-Method-Override header (with a form content type) on a request that is NOT a POST: such a
+	// request is not tunnelled and is routed by its own verb
+	Stray string `json:"stray_override,omitempty"`
 }
 
 func (r request) query() string {
@@ -305,6 +308,12 @@ func (r request) build() ([]byte, error) {
 	hdr.Set("X-RestLi-Protocol-Version", "2.0.0")
 	if body != "" {
 		hdr.Set("Content-Type", "application/json")
+	}
+	if r.Stray != "" {
+		hdr.Set("X-HTTP-Method-Override", r.Stray)
+		if body == "" {
+			hdr.Set("Content-Type", "application/x-www-form-urlencoded")
+		}
 	}
 	if r.Tunnel {
 		// reference tunnelling encoder (sharing no code with restli.EncodeTunnelledQuery)
@@ -842,7 +851,7 @@ func main() {
 	headers := append([]string{""}, append(append([]string{}, methodNames...), "bogus")...)
 	s := rep.S("routing")
 	ts := trees(a.Thorough())
-	s.Bounds = fmt.Sprintf("trees=%d x verbs%v x method header{absent,13 names,bogus} x paths%v x q{-,f1,nope} x ids{-,+} x action{-,a1,nope} x tunnelled{no,yes} x filter stacks%v x mounting{bare,mux,prefix} (quick: filter stack and mounting deviate one at a time)", len(ts), verbs, paths, filterStacks)
+	s.Bounds = fmt.Sprintf("trees=%d x verbs%v x method header{absent,13 names,bogus} x paths%v x q{-,f1,nope} x ids{-,+} x action{-,a1,nope} x tunnelled{no,yes} (+ a stray override header on non-POST requests) x filter stacks%v x mounting{bare,mux,prefix} (quick: filter stack and mounting deviate one at a time)", len(ts), verbs, paths, filterStacks)
 	classes := map[string]int64{}
 	for ti, roots := range ts {
 		if !a.Mine(ti) {
@@ -870,6 +879,29 @@ func main() {
 		}
 		for _, c := range cfgs {
 			h := buildServer(roots, filterStacks[c.f], c.m)
+			// an override header on requests that are not POSTs (all paths, no query, no method header)
+			for _, verb := range []string{"GET", "PUT", "DELETE"} {
+				for _, p := range paths {
+					for _, over := range []string{"GET", "PUT", "DELETE", "POST"} {
+						if over == verb {
+							continue
+						}
+						r := request{Verb: verb, Path: p, Filters: c.f, Mounting: c.m, Stray: over}
+						kind, detail := check(roots, h, r)
+						s.Evaluations++
+						s.Transitions++
+						s.Traces++
+						if kind != "" {
+							want := route(roots, r)
+							rep.Fail(sigOf(a.Gen, kind, r, want)+" stray-override="+over, fmt.Sprintf("tree %s\nrequest %+v\n%s", treeString(roots), r, detail),
+								replayPayload{Gen: a.Gen, Tree: roots, Request: r})
+							classes["fail:"+kind]++
+						} else {
+							classes["ok:stray-override:"+route(roots, r).kind]++
+						}
+					}
+				}
+			}
 			for _, verb := range verbs {
 				for _, hdr := range headers {
 					for _, p := range paths {
@@ -877,7 +909,7 @@ func main() {
 							for _, ids := range []bool{false, true} {
 								for _, act := range []string{"", "a1", "nope"} {
 									for _, tun := range []bool{false, true} {
-										r := request{verb, hdr, p, q, ids, act, tun, c.f, c.m}
+										r := request{verb, hdr, p, q, ids, act, tun, c.f, c.m, ""}
 										if tun && r.query() == "" {
 											continue // a client never tunnels an empty query
 										}
@@ -902,7 +934,7 @@ func main() {
 			}
 		}
 		if ti%17 == 0 {
-			rep.Sample(map[string]interface{}{"tree": treeString(roots), "example_request": request{"GET", "", "/r/k", "", false, "", false, 0, "bare"}, "expected": route(roots, request{Verb: "GET", Path: "/r/k"}).String()})
+			rep.Sample(map[string]interface{}{"tree": treeString(roots), "example_request": request{"GET", "", "/r/k", "", false, "", false, 0, "bare", ""}, "expected": route(roots, request{Verb: "GET", Path: "/r/k"}).String()})
 		}
 	}
 	for k, v := range classes {
@@ -936,7 +968,7 @@ func main() {
 				for _, hdr := range headers {
 					for _, p := range paths {
 						for _, q := range []string{"", "f1"} {
-							r := request{verb, hdr, p, q, false, "", false, 0, mounting}
+							r := request{verb, hdr, p, q, false, "", false, 0, mounting, ""}
 							kind, detail := check(before, h, r)
 							sn.Evaluations++
 							sn.Transitions++
@@ -948,6 +980,53 @@ func main() {
 								sn.Class("fail")
 							} else {
 								sn.Class("ok:" + route(before, r).kind)
+							}
+						}
+					}
+				}
+			}
+		}
+	}
+	// deep trees: several sub-resources below one parent at depth 4 and 5 (filters must see the path of the routed
+	// resource, not a sibling's)
+	if a.Shard == 0 || a.Shards == 1 {
+		sd := rep.S("deep-siblings")
+		leafs := func(prefix string) []*node {
+			return []*node{{Name: prefix + "1", Collection: true, Methods: []string{"get", "get_all"}}, {Name: prefix + "2", Collection: true, Methods: []string{"get", "delete"}},
+				{Name: prefix + "3", Collection: false, Methods: []string{"get"}}}
+		}
+		deep := leafs("v")
+		d4 := leafs("u")
+		d4[0].Children = deep
+		roots := []*node{{Name: "r", Collection: true, Methods: []string{"get"}, Children: []*node{{Name: "s", Collection: true, Methods: []string{"get"},
+			Children: []*node{{Name: "t", Collection: true, Methods: []string{"get"}, Children: d4}}}}}}
+		base := "/r/k/s/k/t/k"
+		var dpaths []string
+		for _, n := range []string{"u1", "u2", "u3", "u4"} {
+			dpaths = append(dpaths, base+"/"+n, base+"/"+n+"/k")
+		}
+		for _, n := range []string{"v1", "v2", "v3"} {
+			dpaths = append(dpaths, base+"/u1/k/"+n, base+"/u1/k/"+n+"/k")
+		}
+		sd.Bounds = fmt.Sprintf("one tree r/s/t with three sub-resources at depth 4 and three more at depth 5 x %d paths x verbs {GET, DELETE} x method header {absent, get, get_all} x every filter stack x mounting {bare, prefix}", len(dpaths))
+		for f := range filterStacks {
+			for _, mounting := range []string{"bare", "prefix"} {
+				h := buildServer(roots, filterStacks[f], mounting)
+				for _, verb := range []string{"GET", "DELETE"} {
+					for _, hdr := range []string{"", "get", "get_all"} {
+						for _, p := range dpaths {
+							r := request{Verb: verb, Header: hdr, Path: p, Filters: f, Mounting: mounting}
+							kind, detail := check(roots, h, r)
+							sd.Evaluations++
+							sd.Transitions++
+							sd.Traces++
+							sd.States++
+							if kind != "" {
+								rep.Fail(sigOf(a.Gen, "deep-"+kind, r, route(roots, r)), fmt.Sprintf("tree %s\nrequest %+v\n%s", treeString(roots), r, detail),
+									replayPayload{Gen: a.Gen, Tree: roots, Request: r})
+								sd.Class("fail")
+							} else {
+								sd.Class("ok:" + route(roots, r).kind)
 							}
 						}
 					}
